@@ -358,6 +358,19 @@ func (r *Runner) canary(n int, after string) {
 		if r.Broken {
 			return
 		}
+		if rep.Err != "" && s.Op == "create" {
+			// balloons has no CPUs set aside for the reserved balloon while it is empty: when accepted hostile creates
+			// hold every CPU, refusing one more container is correct behaviour, not a damaged plugin.
+			if sn := r.Inst.BlnSnap(); sn != nil && len(sn.FreeCpus) == 0 && strings.Contains(rep.Err, "not enough free CPUs") {
+				r.Count("c14_canary_refused_for_capacity")
+				for _, op := range []string{"stoppod", "removepod"} {
+					if r.Do(&Step{Op: op, Pod: podKey}); r.Broken {
+						return
+					}
+				}
+				return
+			}
+		}
 		if rep.Err != "" {
 			r.Violate("C14", "canary-refused", s.Op+"-after-"+after, "after a hostile %s the benign request %s failed: %s", after, s.Op, trunc(rep.Err, 300))
 			return
@@ -397,6 +410,21 @@ func RunHostileHistory(o HistOpts) *HistResult {
 	r.Hostile = true
 	r.LogF = o.LogF
 	defer func() { r.Inst.Close() }()
+	// A Go "fatal error" (stack overflow, concurrent map access, ...) or os.Exit kills the process and no recover()
+	// sees it: the witness of the history so far, including the call about to be made, is on disk before every call.
+	r.PreStep = func(*Step) {
+		if o.WorkDir == "" {
+			return
+		}
+		cur := *res
+		cur.Steps = r.Steps
+		if b, err := json.Marshal(&cur); err == nil {
+			tmp := filepath.Join(o.WorkDir, "current-case.json.tmp")
+			if os.WriteFile(tmp, b, 0o644) == nil {
+				os.Rename(tmp, filepath.Join(o.WorkDir, "current-case.json"))
+			}
+		}
+	}
 	for i := 0; i < 6 && !r.Broken; i++ {
 		s := g.NextStep(r)
 		if s.Op == "create" {
